@@ -40,6 +40,9 @@ func crashFeatures(c isish.Case) map[string]string {
 	if ic.Inflight != nil {
 		f["events"] = "raced-with-pdus"
 	}
+	if len(ic.Faults) > 0 {
+		f["events"] = "with-transient-send-errors"
+	}
 	return f
 }
 
@@ -48,7 +51,7 @@ func main() {
 		isish.ChildMain(runCase)
 	}
 	vf.Main("C33", "exploration", func(r *vf.Run) {
-		r.Rule("every sequence of link up / link down device events of length 1..6 on one IS-IS interface (126 sequences) x {active, passive} x {0, 6, 11} s of mock time after every event (so that the hello, PSNP and CSNP tickers fire in every interface state) = 756 scenarios, each on a fresh server built in the daemon's order (New, Start, AddInterface, device events via device.MockServer), executed in child processes. Oracles: no panic (recovered in the event call, or process death attributed through the batch protocol); GetAdjacencies/GetLSDB return after every event; after a final link up on an active interface a hello is sent on the ethernet handle the server currently holds within 2 hello intervals of mock time, and a neighbor sending valid hellos on that handle (real receive path) reaches Up. distinct_nontrivial = scenarios containing at least one up->down or down->up change. Clause prefix iface-without-device: = same with a second configured interface that never receives a device event (sample; reported separately because the statement speaks of event sequences). Link loss as the device layer reports it (RFC 2863 operational states; only IfOperUp is a usable link, delivered through a device.Updater of the harness): every sequence over {unknown, notPresent, down, lowerLayerDown, testing, dormant, up} of length 1..3 on an active interface (399; thorough 1..4) and 1..2 on a passive one (56; thorough 1..3) plus random sequences of length 4..8 (40; thorough 1500), same oracles, feature loss = the state that reported the most recent link loss. Device events racing with received PDUs (16 scenarios; thorough 200): 150 rounds of link up, 1..4 PDUs of a neighbor (hellos in the three adjacency states, LSP, CSNP, PSNP) put into the socket, then either the harness spins until the receiver goroutine has taken the first PDU or yields 0..30 times, link loss (down or another non-up state) reported without waiting for the receiver; every device event must return (clause event-hang: watchdog of 10 s on a call that takes microseconds, confirmed by replays in fresh processes; detail lists the goroutines inside the IS-IS server), then link up with the hello and adjacency oracles; coverage counts in how many rounds a PDU was being processed / still queued when the loss was reported")
+		r.Rule("every sequence of link up / link down device events of length 1..6 on one IS-IS interface (126 sequences) x {active, passive} x {0, 6, 11} s of mock time after every event (so that the hello, PSNP and CSNP tickers fire in every interface state) = 756 scenarios, each on a fresh server built in the daemon's order (New, Start, AddInterface, device events via device.MockServer), executed in child processes. Oracles: no panic (recovered in the event call, or process death attributed through the batch protocol); GetAdjacencies/GetLSDB return after every event; after a final link up on an active interface a hello is sent on the ethernet handle the server currently holds within 2 hello intervals of mock time, and a neighbor sending valid hellos on that handle (real receive path) reaches Up. distinct_nontrivial = scenarios containing at least one up->down or down->up change. Clause prefix iface-without-device: = same with a second configured interface that never receives a device event (sample; reported separately because the statement speaks of event sequences). Link loss as the device layer reports it (RFC 2863 operational states; only IfOperUp is a usable link, delivered through a device.Updater of the harness): every sequence over {unknown, notPresent, down, lowerLayerDown, testing, dormant, up} of length 1..3 on an active interface (399; thorough 1..4) and 1..2 on a passive one (56; thorough 1..3) plus random sequences of length 4..8 (40; thorough 1500), same oracles, feature loss = the state that reported the most recent link loss. Device events racing with received PDUs (16 scenarios; thorough 200): 150 rounds of link up, 1..4 PDUs of a neighbor (hellos in the three adjacency states, LSP, CSNP, PSNP) put into the socket, then either the harness spins until the receiver goroutine has taken the first PDU or yields 0..30 times, link loss (down or another non-up state) reported without waiting for the receiver; every device event must return (clause event-hang: watchdog of 10 s on a call that takes microseconds, confirmed by replays in fresh processes; detail lists the goroutines inside the IS-IS server), then link up with the hello and adjacency oracles; coverage counts in how many rounds a PDU was being processed / still queued when the loss was reported. Transient transmission failures (fault injection in the harness' ethernet handle: chosen SendPacket calls return an error while the socket stays open, as sendto() does with ENETDOWN/ENOBUFS around a link change): every up/down sequence of length 1..4 (thorough 1..6) ending in link up on an active interface x {0, 6} s x {1st, 1st+2nd, 2nd, 3rd..5th transmission on every handle; 1st transmission on the handle of the last link up} plus random longer scenarios with 1..3 failure windows (20; thorough 1000); same oracles, and after the last injected failure has happened (one hello interval per transmission up to it) a hello must be sent within 2 hello intervals (clause no-hello-after-transient-send-error) and the adjacency must form")
 		r.Assume("mock clock advanced in 1 s steps; after each step the harness yields until no tick is pending in a bio-rd goroutine and the adjacency table and the number of sent frames are unchanged over three reads",
 			"device events are delivered synchronously through device.MockServer (interface index 0)")
 		r.Watchdog("event-hang")
@@ -81,6 +84,15 @@ func main() {
 			cases = append(cases, isish.Case{Kind: "iface", Raw: isish.MustJSON(ic)})
 		}
 		r.Sample(map[string]any{"kind": "iface", "scenario": stateCases[len(stateCases)-1]})
+		// transient transmission failures
+		faultCases := isish.IfaceFaultCases(r.N(4, 6), []int{0, 6})
+		for i := 0; i < r.N(20, 1000); i++ {
+			faultCases = append(faultCases, isish.GenIfaceFaultCase(r.RandN("c33-txfault", i)))
+		}
+		for _, ic := range faultCases {
+			cases = append(cases, isish.Case{Kind: "iface", Raw: isish.MustJSON(ic)})
+		}
+		r.Sample(map[string]any{"kind": "iface", "scenario": faultCases[7]})
 		// device events racing with PDUs being received
 		// (spread over the case list, hence over the child processes: a stuck one costs its watchdog)
 		nRace := r.N(16, 200)
@@ -105,6 +117,10 @@ func main() {
 		r.Set("ghost_scenarios", len(ghosts))
 		r.Set("oper_state_scenarios", len(stateCases))
 		r.Set("raced_scenarios", nRace)
+		r.Set("send_fault_scenarios", len(faultCases))
+		r.Require("transient_send_errors_injected", int64(len(faultCases)))
+		r.Require("final_up_after_transient_send_error", int64(len(faultCases)/2))
+		r.Require("final_up_send_errors_all_consumed", int64(len(faultCases)/2))
 		r.Require("scenarios", int64(nExh/2))
 		r.Require("events_oper_lowerLayerDown", 100)
 		r.Require("events_oper_dormant", 100)
